@@ -594,7 +594,50 @@ func (h *c17Run) genRequest() requestSpec {
 	return rq
 }
 
+// passThrough: on a collection that lives in one shard, a composite of a ranking sub-query and a plain filter (no
+// sort keys, no paging) is asked at the cluster and at the shard: same points, same order.
+func (h *c17Run) passThrough() error {
+	if len(h.col.ShardIds) != 1 || !h.hasVec || h.cl.anyClosed() {
+		return nil
+	}
+	if err := h.refresh(); err != nil {
+		return err
+	}
+	g := h.g
+	r := g.r
+	w := []float32{1, 0.5, 3}[r.IntN(3)]
+	flat := querySpec{kind: "flat", prop: "fv", vec: g.genVec(g.dim), limit: []int{1, 3, 10}[r.IntN(3)], weight: &w}
+	rq := requestSpec{q: querySpec{kind: "or", subs: []querySpec{flat, h.allQuery()}}, limit: 100}
+	res, err := h.cl.nodes[h.entry].SearchPoints(h.col, rq.model())
+	out := "(QError 9)"
+	if err == nil {
+		var perr error
+		if out, perr = pRows(res, true); perr != nil {
+			return perr
+		}
+	}
+	var srows string
+	derr := h.cl.withShard(h.col, h.col.ShardIds[0], func(s *shard.Shard) error {
+		sres, err := s.SearchPoints(rq.model())
+		if err != nil {
+			return err
+		}
+		t, err := pRows(sres, true)
+		srows = strings.TrimSuffix(strings.TrimPrefix(t, "(QRows "), ")")
+		return err
+	})
+	if derr != nil {
+		return fmt.Errorf("direct shard search: %w", derr)
+	}
+	h.ops = append(h.ops, fmt.Sprintf("CPass %s %s %s", rq.coq(), out, srows))
+	h.note("pass-through of a one-shard composite answer")
+	return nil
+}
+
 func (h *c17Run) searches(k int) error {
+	if err := h.passThrough(); err != nil {
+		return err
+	}
 	for i := 0; i < k; i++ {
 		if err := h.search(h.genRequest()); err != nil {
 			return err
